@@ -341,6 +341,26 @@ def check_formatted_writes(chk, funcs):
                 continue
             cn = astdb.callee_name(c)
             args = astdb.call_args(c)
+            if cn in ('snprintf', '__builtin_snprintf') and len(args) >= 3:
+                # bounded by its size argument: that bound must not exceed the destination array
+                n += 1
+                loc = astdb.loc_str(c)
+                site = '%s:sprintf' % f['name']
+                size = array_size(args[0], tu)
+                if size is None:
+                    size = param_array_size(args[0], f, funcs)
+                lim = astdb.const_int(strip(args[1], casts=True), tu)
+                if lim is None:
+                    a1 = strip(args[1], casts=True)
+                    if a1.get('kind') == 'UnaryExprOrTypeTraitExpr' and a1.get('name') == 'sizeof':
+                        ks_ = [c_ for c_ in kids(a1) if c_.get('kind')]
+                        if ks_ and astdb.expr_text(strip(ks_[0], casts=True)) == astdb.expr_text(strip(args[0], casts=True)):
+                            lim = size
+                chk.expect(size is not None and lim is not None and lim <= size, 'R10.1', site,
+                           'snprintf(%s, %s, ...) at %s: the size argument is %r, the destination has %r bytes - the bound must be a constant '
+                           'not larger than the destination' % (astdb.expr_text(args[0]), astdb.expr_text(args[1]), loc, lim, size), site, loc,
+                           detail_ok='snprintf bounded by %r <= %r bytes' % (lim, size))
+                continue
             if cn in PRINTF_DST:
                 di, fi = PRINTF_DST[cn]
                 n += 1
@@ -1419,10 +1439,23 @@ def check_growable(chk):
             interp.store(d.c, d.k + i, ch)
         return d
 
+    def memcpy(interp, args, node):
+        d, s_, n = args
+        if not isinstance(n, int):
+            raise pe.PEError('memcpy of %r bytes' % (n,))
+        src = s_ if isinstance(s_, str) else None
+        if src is not None and n > len(src) + 1:
+            raise pe.PEError('memcpy of %d bytes from the %d-byte string %r' % (n, len(src) + 1, src))
+        for i in range(n):
+            ch = (ord(src[i]) if i < len(src) else 0) if src is not None else interp.load(s_.c, s_.k + i)
+            interp.store(d.c, d.k + i, ch)
+        return d
+
     def on_call(name, args, node):
         if name in ('arrayEnsureCapacity', 'arrayEnsureCapacitySlowPath') and isinstance(args[3], int):
             state['itemsize'] = args[3]
     leafs = {'calloc': calloc, 'malloc': malloc, 'realloc': realloc, 'strncpy': strncpy, '__builtin_strncpy': strncpy,
+             'memcpy': memcpy, '__builtin_memcpy': memcpy, 'memmove': memcpy,
              'free': lambda i, a, n: None, '__assert_fail': pe.leaf_abort('assert')}
 
     def machine(tus):
